@@ -3,7 +3,7 @@
    `reachable c s` = s is the state after SOME event list accepted by the parallel_safe transition system of
    configuration c (size, instances, argument entries, failing subset): all interleavings of the main thread and
    the member threads, with no bound on anything. *)
-From CF Require Import Common.Bytes C19.Model C19.Proofs C19.Proofs_b C19.Proofs_c.
+From CF Require Import Common.Bytes C19.Model C19.Proofs C19.Proofs_b C19.Proofs_c C19.Proofs_d.
 From Coq Require Import Permutation.
 Open Scope nat_scope.
 
@@ -96,3 +96,23 @@ Theorem C19_maximal_run_finished : forall c s, reachable c s -> total_args c ->
   (forall e, step c s e = None) -> exists r, result s = Some r.
 Proof. exact maximal_run_finished. Qed.
 Print Assumptions C19_maximal_run_finished.
+
+(* The caller's argument dictionary is only read.  Python objects are modelled (heap of list objects, the
+   dictionary maps URIs to object ids, so reuse of one dictionary over several actions and two URIs sharing one
+   list are covered): for every history of swarm-wide actions on one swarm, every object that existed before
+   (the dictionary's lists) is the same afterwards, and in every action every member's argument list is a new
+   object holding its own connection followed by its own entry as the caller wrote it. *)
+Theorem C19_args_dict_unchanged : forall ms calls h idss h',
+  (forall ad, In ad calls -> wf_dict h ad) ->
+  history h ms calls = Some (idss, h') ->
+  firstn (List.length h) h' = h /\
+  map (map (obj h')) idss = map (fun ad => map (fun m => VScf (snd m) :: entry h ad (fst m)) ms) calls.
+Proof. exact args_dict_unchanged. Qed.
+Print Assumptions C19_args_dict_unchanged.
+
+(* the integer view of that heap is what the transition system above uses as `args` *)
+Theorem C19_args_view : forall h d u, d <> [] ->
+  process_args (Some (dict_view h d)) u = option_map (fun r => ints (obj h r)) (plookup d u) /\
+  ints (entry h (Some d) u) = match plookup d u with Some r => ints (obj h r) | None => [] end.
+Proof. exact process_args_view. Qed.
+Print Assumptions C19_args_view.
